@@ -1,5 +1,6 @@
 import Mathlib.Algebra.Order.Field.Basic
 import Mathlib.Tactic.Linarith
+import Mathlib.Tactic.Ring
 import Splipy.Lemmas.C20Bisect
 import Splipy.Model.Tolerance
 
@@ -321,5 +322,152 @@ theorem candidate_some (d : VertexDict K V) (q : Array K) (hq : q.size ≠ 0) {i
   cases hl : d.liveCandidates q with
   | nil => rw [hl] at h; cases h
   | cons c _ => exact ⟨c, rfl⟩
+
+/-! ## The window of `_bounds` is `isclose` with the stored value as reference (any `0 ≤ rtol < 1`) -/
+
+section semantic
+variable [IsStrictOrderedRing K]
+
+/-- **The tolerance relation of `VertexDict`.**  The stored coordinate `v` is *within the configured
+    tolerance* of the query coordinate `x`:  `x − v ≤ atol + rtol·|v|`  and  `v − x < atol + rtol·|v|`
+    (`numpy.isclose(x, v, rtol, atol)` with the stored value as the reference, the upper end
+    excluded because the code slices `[bisect_left(lo), bisect_left(hi))`).  Not symmetric in
+    `x`, `v` for `rtol > 0`. -/
+def Within (rtol atol x v : K) : Prop := x - v ≤ atol + rtol * |v| ∧ v - x < atol + rtol * |v|
+
+set_option linter.unusedVariables false in
+/-- lower end of the `_bounds` window, semantically (all three sign cases of the code) -/
+theorem bounds_lo_iff (d : VertexDict K V) (hr0 : 0 ≤ d.rtol) (hr1 : d.rtol < 1) (ha : 0 ≤ d.atol)
+    (x v : K) : (d.bounds x).1 ≤ v ↔ x - v ≤ d.atol + d.rtol * |v| := by
+  have hp : 0 < 1 + d.rtol := by linarith
+  have hm : 0 < 1 - d.rtol := by linarith
+  have e1 : v * (1 + d.rtol) = v + d.rtol * v := by ring
+  have e2 : v * (1 - d.rtol) = v - d.rtol * v := by ring
+  unfold bounds
+  split_ifs with h1 h2
+  · simp only
+    rw [div_le_iff₀ hp, e1]
+    rcases le_total 0 v with hv | hv
+    · rw [abs_of_nonneg hv]; constructor <;> intro h <;> linarith
+    · rw [abs_of_nonpos hv]
+      have : d.rtol * v ≤ 0 := mul_nonpos_of_nonneg_of_nonpos hr0 hv
+      have h3 : v ≤ d.rtol * v := by nlinarith
+      constructor <;> intro h <;> nlinarith
+  · simp only
+    rw [div_le_iff₀ hm, e2]
+    rcases le_total 0 v with hv | hv
+    · rw [abs_of_nonneg hv]
+      have : 0 ≤ d.rtol * v := mul_nonneg hr0 hv
+      have h3 : d.rtol * v ≤ v := by nlinarith
+      constructor <;> intro h <;> nlinarith
+    · rw [abs_of_nonpos hv]; constructor <;> intro h <;> linarith
+  · simp only
+    rw [div_le_iff₀ hm, e2]
+    rcases le_total 0 v with hv | hv
+    · rw [abs_of_nonneg hv]
+      have : 0 ≤ d.rtol * v := mul_nonneg hr0 hv
+      have h3 : d.rtol * v ≤ v := by nlinarith
+      constructor <;> intro h <;> nlinarith
+    · rw [abs_of_nonpos hv]; constructor <;> intro h <;> linarith
+
+set_option linter.unusedVariables false in
+/-- upper end of the `_bounds` window, semantically -/
+theorem bounds_hi_iff (d : VertexDict K V) (hr0 : 0 ≤ d.rtol) (hr1 : d.rtol < 1) (ha : 0 ≤ d.atol)
+    (x v : K) : v < (d.bounds x).2 ↔ v - x < d.atol + d.rtol * |v| := by
+  have hp : 0 < 1 + d.rtol := by linarith
+  have hm : 0 < 1 - d.rtol := by linarith
+  have e1 : v * (1 + d.rtol) = v + d.rtol * v := by ring
+  have e2 : v * (1 - d.rtol) = v - d.rtol * v := by ring
+  unfold bounds
+  split_ifs with h1 h2
+  · simp only
+    rw [lt_div_iff₀ hm, e2]
+    rcases le_total 0 v with hv | hv
+    · rw [abs_of_nonneg hv]; constructor <;> intro h <;> linarith
+    · rw [abs_of_nonpos hv]
+      have : d.rtol * v ≤ 0 := mul_nonpos_of_nonneg_of_nonpos hr0 hv
+      have h3 : v ≤ d.rtol * v := by nlinarith
+      constructor <;> intro h <;> nlinarith
+  · simp only
+    rw [lt_div_iff₀ hp, e1]
+    rcases le_total 0 v with hv | hv
+    · rw [abs_of_nonneg hv]
+      have : 0 ≤ d.rtol * v := mul_nonneg hr0 hv
+      have h3 : d.rtol * v ≤ v := by nlinarith
+      constructor <;> intro h <;> nlinarith
+    · rw [abs_of_nonpos hv]; constructor <;> intro h <;> linarith
+  · simp only
+    rw [lt_div_iff₀ hm, e2]
+    rcases le_total 0 v with hv | hv
+    · rw [abs_of_nonneg hv]; constructor <;> intro h <;> linarith
+    · rw [abs_of_nonpos hv]
+      have : d.rtol * v ≤ 0 := mul_nonpos_of_nonneg_of_nonpos hr0 hv
+      have h3 : v ≤ d.rtol * v := by nlinarith
+      constructor <;> intro h <;> nlinarith
+
+/-- `v ∈ [_bounds(x))  ↔  Within rtol atol x v`, for every sign of `x` and `v`. -/
+theorem bounds_within_iff (d : VertexDict K V) (hr0 : 0 ≤ d.rtol) (hr1 : d.rtol < 1) (ha : 0 ≤ d.atol)
+    (x v : K) : ((d.bounds x).1 ≤ v ∧ v < (d.bounds x).2) ↔ Within d.rtol d.atol x v := by
+  unfold Within
+  rw [bounds_lo_iff d hr0 hr1 ha, bounds_hi_iff d hr0 hr1 ha]
+
+omit [IsStrictOrderedRing K] in
+/-- a value is within tolerance of itself iff the tolerance at it is positive -/
+theorem within_self_iff (rtol atol x : K) : Within rtol atol x x ↔ 0 < atol + rtol * |x| := by
+  unfold Within
+  rw [sub_self]
+  constructor
+  · exact fun h => h.2
+  · intro h; exact ⟨le_of_lt h, h⟩
+
+/-- **Semantic characterisation of the candidate set** for any `0 ≤ rtol < 1`, `0 ≤ atol`. -/
+theorem mem_liveCandidates_within (d : VertexDict K V) (dim : ℕ) (orig : ℕ → ℕ → K)
+    (h : WF d dim orig) (hr0 : 0 ≤ d.rtol) (hr1 : d.rtol < 1) (ha : 0 ≤ d.atol)
+    (q : Array K) (hq : q.size = dim) (i : ℕ) :
+    i ∈ d.liveCandidates q ↔
+      ∃ k, d.keys.getD i none = some k ∧
+        ∀ c, c < dim → Within d.rtol d.atol (q.getD c 0) (k.getD c 0) := by
+  rw [mem_liveCandidates d dim orig h q hq i]
+  constructor
+  · rintro ⟨⟨k, hk⟩, hall⟩
+    refine ⟨k, hk, fun c hc => ?_⟩
+    rw [← bounds_within_iff d hr0 hr1 ha, (h.keys i k hk).2 c hc]
+    exact hall c hc
+  · rintro ⟨k, hk, hall⟩
+    refine ⟨⟨k, hk⟩, fun c hc => ?_⟩
+    have := (bounds_within_iff d hr0 hr1 ha _ _).2 (hall c hc)
+    rw [(h.keys i k hk).2 c hc] at this
+    exact this
+
+end semantic
+
+/-! ## `_insert` -/
+
+theorem insert_keys_size (d : VertexDict K V) (q : Array K) (v : V) :
+    (d.insert q v).keys.size = d.keys.size + 1 := by
+  simp [VertexDict.insert]
+
+theorem insert_keys_new (d : VertexDict K V) (q : Array K) (v : V) :
+    (d.insert q v).keys.getD d.keys.size none = some q := by
+  simp [VertexDict.insert, Array.getD]
+
+theorem insert_keys_old (d : VertexDict K V) (q : Array K) (v : V) {i : ℕ} (hi : i < d.keys.size) :
+    (d.insert q v).keys.getD i none = d.keys.getD i none := by
+  have h1 : i < d.keys.size + 1 := by omega
+  simp [VertexDict.insert, Array.getD, hi, h1, Array.getElem_push_lt]
+
+theorem insert_values_new (d : VertexDict K V) (q : Array K) (v : V) :
+    (d.insert q v).values.getD d.values.size none = some v := by
+  simp [VertexDict.insert, Array.getD]
+
+theorem setItem_of_candidate (d : VertexDict K V) (q : Array K) (v : V) {c : ℕ}
+    (h : d.candidate q = .ok c) :
+    d.setItem q v = .ok { d with values := d.values.setIfInBounds c (some v) } := by
+  unfold VertexDict.setItem; rw [h]; rfl
+
+theorem setItem_of_none (d : VertexDict K V) (q : Array K) (v : V)
+    (h : d.candidate q = .error .key) : d.setItem q v = .ok (d.insert q v) := by
+  unfold VertexDict.setItem; rw [h]; rfl
+
 
 end Splipy.C20
